@@ -36,9 +36,9 @@ macro_rules! lm_harness {
 }
 
 //@ harness: c16_lmdb_reopen_keeps_markers c16_lmdb_reopen_keeps_index_entries
-//@ tier: quick
-//@ timeout: 700
-//@ mem: 16
+//@ tier: thorough
+//@ timeout: 3000
+//@ mem: 24
 //@ covers: any
 //@ unwindset: heed::bytes_=260; heed::Table=6; memcmp.0=80; repeat::Repeat=190; Repeat.*try_fold=190
 //@ cbmc: --max-field-sensitivity-array-size 300
